@@ -28,7 +28,8 @@ class C17(Prop):
             "slice and map; every status; DLQ configs; timestamps with ns and zones), pre-0.4.1 connector records, the "
             "golden documents of the store packages and hand-shaped documents; Set on the real store, fresh services "
             "Init on the same in-memory DB, Get. distinct = distinct input JSON; non-trivial = the instance carries at "
-            "least one non-ASCII or escaped character or a non-empty binary position or a map/list whose nil-ness matters")
+            "least one character that is not printable ASCII or needs an escape, or a non-empty binary position (or is an "
+            "old-format / golden document)")
     trusted_base = [
         "Coq 8.16.1 kernel + vm_compute (no native_compute)",
         "Go harness harness/cmd/c17 (case generator, raw JSON reader, translator gen.go) and python driver",
@@ -47,7 +48,7 @@ class C17(Prop):
 
     def shards(self, tier, seed):
         if tier == "quick":
-            return [["--seed", str(seed), "--n", "188", "--sample", "1"] for _ in range(16)]
+            return [["--seed", str(seed), "--n", "188", "--sample", "2"] for _ in range(16)]
         rnd = [["--seed", str(seed), "--n", "6500", "--sample", "4"] for _ in range(NCPU)]
         # every 1- and 2-byte position, every Unicode scalar value (see exhaustive() in gencases.go)
         xs = [["--mode", "exhaustive", "--xpart", str(k), "--xparts", "8", "--sample", "40"] for k in range(8)]
@@ -105,8 +106,7 @@ class C17(Prop):
         special = any(any(c > 126 or c < 32 or c in (34, 92, 60, 62, 38) for c in s) for s in strs(i))
         st = i.get("State") or {}
         haspos = bool(st.get("Pos")) or any(p.get("V") for p in (st.get("Positions") or []))
-        nilish = any(i.get(k) is False for k in ("HasSettings", "HasProcs", "HasConns", "HasLast"))
-        return special or haspos or nilish
+        return special or haspos
 
     # ---- naming what differs (for finding keys and descriptions; the verdict is Coq's) ----
     FIELDS = {
